@@ -83,6 +83,21 @@ CLAIMED['C11'] = dict(
          'connect()/disconnect() races after a second connection (known_findings.json).',
     design='6/C11')
 
+CLAIMED['C12'] = dict(
+    level='exploration',
+    text='Seeded search in three worlds: (peer) generated descriptions and message sequences (update/error_update/'
+         'reply/changed/error_read, unknown parameters, module shorthand, malformed messages, future timestamps) with '
+         'callback (un)registration at node/module/parameter level incl. raising and one-shot callbacks, ordered against '
+         'the rx thread by sync markers; (e2e) real client <-> real node with recording drivers, '
+         'setParameter/getParameter/execCommand over generated parameters of every datatype; (proxy) the same through '
+         'a real node of frappy.proxy modules, with a connection drop. Cache = import of the last message, timestamp '
+         'never in the future, each callback exactly once per message in order, driver argument = caller value, '
+         'cache = driver return value.',
+    note='Trusted: simulation kernel, scripted peer, fake driver, the harness\' own wire<->python conversion. Proxy '
+         'world: commands with tuple/struct arguments are left out (frappy.proxy cannot forward them) and reads are not '
+         'judged (a proxy answers reads from its update cache).',
+    design='6/C12')
+
 NOT_APPLICABLE = {
     'C01': 'pure function of (datatype, candidate, previous) - no schedule, clock, I/O or fault dimension for a simulator to decide',
     'C02': 'pure round-trip law over (datatype, value) - no schedule, clock, I/O or fault dimension',
